@@ -8,19 +8,26 @@ ARITH = ["+", "-", "*", "/", "%", "^", ".."]
 COMP = ["==", "~=", "<", "<=", ">", ">="]
 EVENT = {"+": "__add", "-": "__sub", "*": "__mul", "/": "__div", "%": "__mod", "^": "__pow", "..": "__concat",
          "==": "__eq", "~=": "__eq", "<": "__lt", "<=": "__le", ">": "__lt", ">=": "__le"}
-CONFIGS = ["none", "A", "B", "AB-same", "AB-diff"]
+CONFIGS = ["none", "A", "B", "AB-same", "AB-diff", "AB-twin"]      # twin: two closures of one function literal
+PROTS = ["", "", "", "str", "false", "decoy", "true"]               # value of __metatable in both metatables ("" = absent)
 
 
 def _name(p, s):
     return p.add("str", s=list(s.encode()), name=True)
 
 
-def _setup(p, events, config, retval):
+def _setup(p, events, config, retval, prot=""):
     """handlers hA/hB emit their tag and operands and return retval; metatables mtA (tA, tA2, uA) and mtB (tB, uB)"""
     def handler(tag):
-        return p.func(["a", "b"], p.block([p.emit([p.str(tag), p.id("a"), p.id("b"), p.call(p.id("select"), [p.str("#"), p.dots()])]),
+        return p.func(["a", "b"], p.block([p.emit([p.str(tag) if isinstance(tag, str) else tag, p.id("a"), p.id("b"), p.call(p.id("select"), [p.str("#"), p.dots()])]),
                                            p.ret([retval(), p.str("second")])]), va=True, ud=True)
-    ss = [p.local(["hA", "hB"], [handler("hA"), handler("hB")]),
+    if config == "AB-twin":
+        # hA and hB are distinct closures of ONE function literal: different handlers all the same
+        ss = [p.localfunction("mkh", p.func(["tag"], p.block([p.ret([handler(p.id("tag"))])]))),
+              p.local(["hA", "hB"], [p.call(p.id("mkh"), [p.str("hA")]), p.call(p.id("mkh"), [p.str("hB")])])]
+    else:
+        ss = [p.local(["hA", "hB"], [handler("hA"), handler("hB")])]
+    ss += [
           p.local(["mtA", "mtB"], [p.table([]), p.table([])]),
           p.local(["tA", "tA2", "tB", "plain"], [p.call(p.id("setmetatable"), [p.table([]), p.id("mtA")]),
                                                   p.call(p.id("setmetatable"), [p.table([]), p.id("mtA")]),
@@ -28,14 +35,23 @@ def _setup(p, events, config, retval):
           p.local(["uA", "uB"], [p.call(p.id("newproxy"), [p.true()]), p.call(p.id("newproxy"), [p.true()])]),
           p.emit([p.id("tA"), p.id("tA2"), p.id("tB"), p.id("plain"), p.id("uA"), p.id("uB")])]
     for ev in events:
-        a = {"none": None, "A": "hA", "B": None, "AB-same": "hA", "AB-diff": "hA"}[config]
-        b = {"none": None, "A": None, "B": "hB", "AB-same": "hA", "AB-diff": "hB"}[config]
+        a = {"none": None, "A": "hA", "B": None, "AB-same": "hA", "AB-diff": "hA", "AB-twin": "hA"}[config]
+        b = {"none": None, "A": None, "B": "hB", "AB-same": "hA", "AB-diff": "hB", "AB-twin": "hB"}[config]
         if a:
             ss.append(p.assign([p.field(p.id("mtA"), ev)], [p.id(a)]))
             ss.append(p.assign([p.field(p.call(p.id("getmetatable"), [p.id("uA")]), ev)], [p.id(a)]))
         if b:
             ss.append(p.assign([p.field(p.id("mtB"), ev)], [p.id(b)]))
             ss.append(p.assign([p.field(p.call(p.id("getmetatable"), [p.id("uB")]), ev)], [p.id(b)]))
+    if prot:
+        # protected metatables: __metatable only changes what getmetatable/setmetatable see, never which handler an event finds
+        pv = {"str": lambda: p.str("locked"), "false": lambda: p.false(), "true": lambda: p.true(),
+              "decoy": lambda: p.table([("k", _name(p, ev), handler("decoy")) for ev in events])}[prot]
+        ss.append(p.local(["umA", "umB"], [p.call(p.id("getmetatable"), [p.id("uA")]), p.call(p.id("getmetatable"), [p.id("uB")])]))
+        for m in ("mtA", "mtB", "umA", "umB"):
+            ss.append(p.assign([p.field(p.id(m), "__metatable")], [pv()]))
+        ss.append(p.emit([p.str("prot"), p.call(p.id("getmetatable"), [p.id("tA")]), p.call(p.id("getmetatable"), [p.id("uB")]),
+                          p.call(p.id("pcall"), [p.id("setmetatable"), p.id("tB"), p.table([])])]))
     return ss
 
 
@@ -45,10 +61,10 @@ def _operand(p, kind):
             "uB": lambda: p.id("uB"), "nil": lambda: p.nil(), "bool": lambda: p.true()}[kind]()
 
 
-def binop_case(op, l, r, config, retkind):
+def binop_case(op, l, r, config, retkind, prot=""):
     p = Prog()
     retval = {"str": lambda: p.str("R"), "nil": lambda: p.nil(), "false": lambda: p.false(), "zero": lambda: p.num(0), "tab": lambda: p.table([])}[retkind]
-    ss = _setup(p, [EVENT[op]] + (["__lt"] if op in ("<=", ">=") and retkind == "zero" else []), config, retval)
+    ss = _setup(p, [EVENT[op]] + (["__lt"] if op in ("<=", ">=") and retkind == "zero" else []), config, retval, prot)
     body = p.block([p.ret([p.bin(op, _operand(p, l), _operand(p, r))])])
     ss.append(p.emit([p.str("result"), p.call(p.id("pcall"), [p.func([], body)])]))
     # the same with operands in registers (locals) instead of upvalues/constants
@@ -67,9 +83,9 @@ def le_fallback_case(l, r, retkind):
     return p, p.block(ss)
 
 
-def unm_case(o, config):
+def unm_case(o, config, prot=""):
     p = Prog()
-    ss = _setup(p, ["__unm"], config, lambda: p.str("neg"))
+    ss = _setup(p, ["__unm"], config, lambda: p.str("neg"), prot)
     ss.append(p.emit([p.str("result"), p.call(p.id("pcall"), [p.func([], p.block([p.ret([p.un("-", _operand(p, o))])]))])]))
     return p, p.block(ss)
 
@@ -204,6 +220,24 @@ def misc_cases():
                 p.emit([p.call(p.id("rawget"), [p.id("a"), p.str("k")]), p.call(p.id("rawget"), [p.id("a"), p.str("j")])])]
     mk(rawbypass)
 
+    for kind in ("absent", "false", "true", "zero", "emptystr", "str", "table", "func", "nil-explicit"):
+        def metafield(p, kind=kind):
+            val = {"absent": None, "false": p.false, "true": p.true, "zero": lambda: p.num(0), "emptystr": lambda: p.str(""), "str": lambda: p.str("locked"),
+                   "table": lambda: p.table([("k", _name(p, "decoy"), p.num(1))]), "func": lambda: p.func([], p.block([])), "nil-explicit": p.nil}[kind]
+            items = [("k", _name(p, "__index"), p.table([("k", _name(p, "z"), p.num(9))]))]
+            if val:
+                items.append(("k", _name(p, "__metatable"), val()))
+            return [p.local(["mt"], [p.table(items)]),
+                    p.local(["t", "u"], [p.call(p.id("setmetatable"), [p.table([]), p.id("mt")]), p.call(p.id("newproxy"), [p.true()])]),
+                    p.emit([p.id("mt"), p.id("t")]),
+                    p.emit([p.str("get"), p.call(p.id("getmetatable"), [p.id("t")]), p.bin("==", p.call(p.id("getmetatable"), [p.id("t")]), p.id("mt")), p.field(p.id("t"), "z")]),
+                    p.emit([p.str("set"), p.call(p.id("pcall"), [p.id("setmetatable"), p.id("t"), p.table([])])]),
+                    p.emit([p.str("set-nil"), p.call(p.id("pcall"), [p.id("setmetatable"), p.id("t"), p.nil()])]),
+                    p.emit([p.str("after"), p.call(p.id("getmetatable"), [p.id("t")]), p.field(p.id("t"), "z")])] + \
+                   ([p.assign([p.field(p.call(p.id("getmetatable"), [p.id("u")]), "__metatable")], [val()]),
+                     p.emit([p.str("ud"), p.call(p.id("getmetatable"), [p.id("u")])])] if val else [])
+        mk(metafield)
+
     def concat_chain(p):
         h = p.func(["a", "b"], p.block([p.emit([p.str("cc"), p.call(p.id("type"), [p.id("a")]), p.call(p.id("type"), [p.id("b")]),
                                                  p.or_(p.and_(p.bin("==", p.call(p.id("type"), [p.id("a")]), p.str("string")), p.id("a")), p.str("-")),
@@ -230,4 +264,4 @@ def gen_binops(rng, n):
              for rk in (["str", "nil", "tab"] if op in ARITH else ["str", "nil", "false", "zero"])
              if l in ("tA", "tA2", "tB", "uA", "uB", "plain") or r in ("tA", "tA2", "tB", "uA", "uB", "plain")]
     rng.shuffle(space)
-    return [binop_case(*s) for s in space[:n]], len(space)
+    return [binop_case(*s, prot=rng.choice(PROTS)) for s in space[:n]], len(space) * 5
